@@ -833,6 +833,13 @@ func ownerName(t types.Type) string {
 
 // loadPtr reads *p where p points to a value of type elem.
 func loadPtr(e *Enc, st *State, p *T, elem types.Type) *T {
+	if at, ok := elem.Underlying().(*types.Array); ok {
+		ets := e.sortOf(at.Elem())
+		h := st.get(elemHeap(ets), arrSort(sRef, arrSort(sI64, ets)))
+		r := sel(h, p, arrSort(sI64, ets))
+		r.GoT = elem
+		return r
+	}
 	es := e.sortOf(elem)
 	if es.Kind == KStruct {
 		strct := structOf(elem)
@@ -1082,6 +1089,16 @@ func (x *Ex) call(v *ast.CallExpr, want *Sort) *T {
 			ref = sapp("sl_arr", a.S)
 		}
 		return mk(sapp("and", sapp(">=", ref, oldNext.S), sapp("<", ref, x.cur.next().S)), sBool)
+	case "arrStore":
+		// arrStore(a, k, v): the array a with index k set to v
+		argN(3)
+		a := x.tr(v.Args[0], nil)
+		if a.Sort.Kind != KArray {
+			fail("arrStore on non-array")
+		}
+		k := x.tr(v.Args[1], a.Sort.Key)
+		val := x.tr(v.Args[2], a.Sort.Val)
+		return mk(sapp("store", a.S, k.S, val.S), a.Sort)
 	case "seqLen":
 		argN(1)
 		q := x.tr(v.Args[0], sFn)
